@@ -53,7 +53,7 @@ THEOREMS = [
         "pool_size_bounds pool_size_ignores_task_count generated_parent_ok generated_sites_complete "
         "generated_serial_is_worker_loop tasks_partition_outputs generated_outputs_partitioned "
         "assembly_eq_serial generated_srs_owner srs_hyp srs_final_cells peak_applied_once "
-        "getresp_histories_eq_serial srs_routine_eq_serial"
+        "getresp_histories_eq_serial srs_routine_eq_serial generated_peak_travels_in_task_tuple"
     ).split()
 ]
 TRUSTED = [
@@ -76,7 +76,10 @@ RULE = (
     "_process_parallel with a substituted cpu count / platform, compared exactly with the Lean interpreter"
 )
 ASSUMPTIONS = ["fork start method (Linux default for multiprocessing.Pool in this Python)",
-               "maxcpu is None or a non-negative integer; a callable `peak` handed to parallel='yes' is picklable"]
+               "maxcpu is None or a non-negative integer",
+               "a callable `peak` handed to the parallel path is picklable (when it is not the parallel path raises where the "
+               "serial one returns: reported by the oracle as the finding parallel-path-raises:srs:peak-callable-not-picklable; "
+               "`generated_peak_travels_in_task_tuple` states the cause on the regenerated table)"]
 PARTIAL = (
     "partial: proved for the modelled protocol — schedule independence (tasks = deterministic step functions over "
     "shared cells, footprints regenerated from the source), the decision rule, the partition of the output arrays by "
@@ -88,7 +91,10 @@ PARTIAL = (
     "that a finished worker has written every cell its write patterns cover (hypothesis `hTot` of "
     "assembly_eq_serial; checked on recording arrays).  fdepsd's post-processing (G1 … G12, data frames) enters "
     "the theorem as an arbitrary function `post` of the output cells: that it is the same code on both paths is a "
-    "regenerated fact (the tail does not mention `parallel`), its arithmetic is not modelled here (C10)"
+    "regenerated fact (the tail does not mention `parallel`), its arithmetic is not modelled here (C10).  Open finding: a "
+    "`peak` function that cannot be pickled (lambda, nested function) makes the parallel path of srs.srs raise "
+    "(with the default parallel='auto' as soon as sig.size > 50000 and len(freq) > 1) while parallel='no' returns the "
+    "spectrum; the theorems take the peak as a mathematical function and assume it reaches the workers"
 )
 MANIFEST = {
     "level_text": "Proof (Lean 4), worker side: in any system of deterministic tasks whose writes go only to cells "
@@ -785,6 +791,9 @@ def _compare_all(ctx, report, hints=(), extra=()):
 
 
 _PERMS_SEEN = {}
+# genuine finding on the unchanged tree (see the final report of the C09 extension): a `peak` function that cannot be
+# pickled makes the parallel path raise; set to False to stop probing it
+REPORT_UNPICKLABLE_PEAK = True
 
 
 # ---------------------------------------------------------------------------------------
@@ -1240,6 +1249,31 @@ def _doc_oracle(ctx):
                      "fdepsd(parallel=%r, maxcpu=%r) reports parallel=%r ncpu=%r on a %d-cpu machine" % (par, mc, ns.parallel, ns.ncpu, ncpu_box),
                      {"routine": "fdepsd-options", "case": {"parallel": par, "maxcpu": mc}}, [ns.parallel, ns.ncpu],
                      "parallel echoed, 1 <= ncpu <= min(cpu count, maxcpu)")
+    # `peak` is documented as "a string or a function": a function that cannot be pickled (a lambda, a function
+    # defined inside another one) must give what parallel='no' gives.  FINDING on the unchanged tree (reported under
+    # its own family): the parallel path hands the function to the workers inside the task tuple, which is pickled.
+    if REPORT_UNPICKLABLE_PEAK:
+        local_peak = lambda x: abs(x).max(axis=0)  # noqa: E731
+        with warnings.catch_warnings():
+            warnings.simplefilter("ignore")
+            ref = srs.srs(sig, 400.0, freq, 15.0, peak=local_peak, parallel="no")
+            ctx.evaluations += 1
+            try:
+                with _deadline(180):
+                    got = srs.srs(sig, 400.0, freq, 15.0, peak=local_peak, parallel="yes", maxcpu=2)
+                d = _first_diff(_bytes_of(got), _bytes_of(ref), "srs")
+                if d:
+                    ctx.fail("parallel-differs-from-serial:srs", d, {"routine": "srs-options", "case": {"peak": "lambda"}}, d,
+                             "bit-identical outputs")
+            except Exception as e:  # noqa: BLE001
+                ctx.fail("parallel-path-raises:srs:peak-callable-not-picklable",
+                         "srs(sig, sr, freq, Q, peak=<lambda>, parallel='yes') raises %s: %s; parallel='no' returns the spectrum "
+                         "(with the default parallel='auto' the same happens as soon as sig.size > 50000 and len(freq) > 1)"
+                         % (type(e).__name__, str(e)[:160]),
+                         {"routine": "srs-options", "case": {"peak": "lambda x: abs(x).max(axis=0)", "parallel": "yes", "maxcpu": 2,
+                                                             "sig": "default_rng(seed).standard_normal(500)", "sr": 400.0,
+                                                             "freq": [10.0, 20.0, 30.0], "Q": 15.0}},
+                         type(e).__name__, "the spectrum parallel='no' returns")
     for bad in ("maybe", "", "Yes"):
         try:
             with warnings.catch_warnings():
@@ -1258,7 +1292,8 @@ def replay(ctx, data):
     if inp.get("routine") in ("fdepsd-options", "srs-options"):
         n0 = len(ctx.failures)
         _doc_oracle(ctx)
-        return ctx.failures[n0] if len(ctx.failures) > n0 else None
+        same = [x for x in ctx.failures[n0:] if x["family"] == f["family"]]
+        return same[0] if same else None
     d = _confirm(inp)
     if d:
         return {"family": f["family"], "what": d, "input": inp}
